@@ -9,7 +9,8 @@ sys.path.insert(0, os.path.dirname(os.path.abspath(__file__)))
 from common import log, load_known, known_match, write_evidence, WORK, VERIF, ToolError
 
 # which engines bear on which property
-RT_PROPS = {"C01", "C02", "C03", "C04", "C05", "C06", "C07", "C08", "C09", "C11", "C18"}
+RT_PROPS = {"C01", "C02", "C03", "C04", "C05", "C06", "C07", "C08", "C09", "C10", "C11", "C18", "C19"}
+VERDICT_PROPS = {"C10", "C11", "C12", "C13", "C14"}
 LEVEL = {p: "model_checking" for p in ["C01", "C02", "C03", "C04", "C05", "C06", "C07", "C08", "C09", "C10", "C11",
                                        "C12", "C13", "C14", "C15", "C18", "C19"]}
 LEVEL.update({"C16": "exploration", "C17": "exploration"})
@@ -137,6 +138,62 @@ def main():
         assumptions += ["the harness runner (harness/rt), the case renderer and the projection of repr values to model coordinates are correct (round-trip tested by setup)",
                         "discriminants in decl events are what rustc assigned (`V as repr`), names are the declaration text",
                         "coverage is the enumerated small scope + seeded samples described in DESIGN.md section 5, not all enums"]
+    if prop in VERDICT_PROPS:
+        import engine_verdict
+        res = engine_verdict.results(tier, seed)
+        n = res["coverage"].get(prop, 0)
+        coverage["states"] += res["tlc"]["stimuli"]["states"] + res["tlc"]["judge"]["states"]
+        coverage["transitions"] += res["tlc"]["stimuli"]["transitions"] + res["tlc"]["judge"]["transitions"]
+        coverage["traces_validated_against_impl"] += n
+        coverage["evaluations"] += n
+        coverage["distinct_nontrivial"] += n
+        coverage["samples"] += res["samples"].get(prop, [])
+        coverage["engines"]["verdict"] = {"cases_total": res["n_cases"], "cases_for_property": n, "rejected_total": res["rejected"],
+                                          "control_builds_failed": res["control_failed"], "case_classes": res["notes"].get(prop, {}),
+                                          "tlc": res["tlc"], "wall_s": res.get("engine_wall_s")}
+        groups = collections.OrderedDict()
+        for v in res["violations"]:
+            if prop not in v["props"]:
+                continue
+            facts = {"engine": "verdict", "why": v["why"], "note": v["note"], "attrs": v["attrs"], "repr": v["repr"],
+                     "msg": v["msg"], "item": v["note"], "label": v["note"]}
+            # one group per (direction, case class, message, and for configurations the offending attribute text class)
+            sig = (v["why"], v["note"], re.sub(r"\d+", "N", v["msg"])[:60])
+            g = groups.setdefault(sig, {"facts": facts, "count": 0, "first": v, "cases": []})
+            g["count"] += 1
+            g["cases"].append(v["case"])
+        # a known finding must match EVERY violation of its group, so match per violation
+        for sig, g in groups.items():
+            unknown = []
+            kn = {}
+            for v in res["violations"]:
+                if prop not in v["props"] or (v["why"], v["note"], re.sub(r"\d+", "N", v["msg"])[:60]) != sig:
+                    continue
+                f = {"engine": "verdict", "why": v["why"], "note": v["note"], "attrs": v["attrs"], "repr": v["repr"], "msg": v["msg"]}
+                k = known_match(prop, f, known)
+                if k:
+                    kn.setdefault(k.get("what", ""), 0)
+                    kn[k.get("what", "")] += 1
+                else:
+                    unknown.append(v)
+            for what, cnt in kn.items():
+                known_lines.append(f"KNOWN-FINDING: property={prop} {what} ({cnt} cases)")
+            if unknown:
+                v = unknown[0]
+                d = os.path.join(WORK, "replay")
+                os.makedirs(d, exist_ok=True)
+                hsh = hashlib.sha256(json.dumps([prop, sig]).encode()).hexdigest()[:10]
+                path = os.path.join(d, f"{prop}-{hsh}.json")
+                json.dump({"property": prop, "engine": "verdict", "tier": tier, "seed": seed, "why": v["why"], "note": v["note"],
+                           "msg": v["msg"], "occurrences": len(unknown), "cases": [x["case"] for x in unknown][:20], "rust": v["rust"],
+                           "how": "the item above (rendered from the TLC-generated case) was %s by rustc with the derive from /repo, "
+                                  "the documented catalogue (spec/Decl.tla, spec/Attr.tla) says the opposite" % v["why"]},
+                          open(path, "w"), indent=1)
+                viol_lines.append((f"VIOLATION property={prop} replay={path}",
+                                   f"{v['why']} ({len(unknown)} cases): {v['note']}: {v['msg'][:100]} e.g. {v['attrs'][:160]}"))
+                nviol += 1
+        assumptions += ["the case renderer (tools/render_verdict.py) renders the abstract case faithfully; guarded by the control build of every case without the derive, whose outcome the specification predicts",
+                        "C12/C13 quantify over syntax: the fault catalogues in spec/Verdict.tla and spec/Attr.tla are finite samples"]
     coverage["rule"] = ("cases = derived enums (declaration x configuration) generated from TLC-enumerated discriminant sets and TLC state-graph "
                         "operation paths; one trace per case, validated event by event by TLC against spec/TraceRt.tla; "
                         "distinct_nontrivial = number of distinct cases with at least one event bearing on this property")
